@@ -807,8 +807,10 @@ class Prov:
         v = self.ev(e.operand, st, fr)
         if isinstance(e.op, ast.Not):
             return ("unop", "not", v)
-        if isinstance(e.op, ast.USub) and is_const(v) and isinstance(v[1], (int, float)):
+        if isinstance(e.op, ast.USub) and is_const(v) and isinstance(v[1], (int, float)) and not isinstance(v[1], bool):
             return ("const", -v[1])
+        if isinstance(e.op, ast.UAdd) and is_const(v) and isinstance(v[1], (int, float)) and not isinstance(v[1], bool):
+            return v
         return ("unop", type(e.op).__name__, v)
 
     def ev_BoolOp(self, e, st, fr):
